@@ -1,6 +1,7 @@
 import Ruint.Lemmas.History
 import Ruint.Gen.GuardGraph
 import Ruint.Lemmas.GenCore
+import Ruint.Lemmas.GenCmp
 
 /-!
 # C04 — values stay canonical; `==`, `Hash`, `Ord` follow the number; ill-formed types are empty
@@ -194,6 +195,12 @@ theorem raw_literals_guarded :
     ∀ o ∈ Gen.GuardGraph.rawLiteralOwners,
       reaches Gen.GuardGraph.edges o Gen.GuardGraph.limbsAssert = true := by
   decide +kernel
+
+/-- **(G)** `algorithms::cmp`, on which `Ord` / `PartialOrd for Uint` rest, regenerated from `src/algorithms/mod.rs` on every run,
+    is the model `Cmp.cmp` the ordering theorems above are about (all pairs of slices). -/
+theorem gen_cmp_eq (l r : List ℕ) (h64 : min l.length r.length < 2 ^ 64) (f : ℕ) (hf : min l.length r.length < f) :
+    Ruint.Gen.limb_cmp f l r = Cmp.cmp l r :=
+  Ruint.GenCmp.limb_cmp_eq l r h64 f hf
 
 /-- **(G)** no other place in `src/` builds a `Uint` from the bare struct literal (list re-extracted on every run): the
     closure argument covers every primitive construction site. -/
